@@ -163,6 +163,8 @@ def family(name, tier, seed):
         desc = "shapes with never-ending jobs x timeouts x windows (admissible and not)"
     else:
         raise KeyError(name)
+    if name == "shutdown" and not quick:
+        cap_total = 800          # the richest state spaces per configuration
     if len(out) > cap_total:
         rng.shuffle(out)
         out = out[:cap_total]
